@@ -10,6 +10,7 @@ import (
 	"encoding/hex"
 	"encoding/json"
 	"fmt"
+	"os"
 	"runtime"
 	"strings"
 
@@ -76,10 +77,13 @@ type Rig struct {
 }
 
 func silenceLogs() {
+	if os.Getenv("VH_EXEC_DEBUG") != "" {
+		return
+	}
 	log15.Root().SetHandler(log15.DiscardHandler())
 }
 
-// NewRig starts a fresh node. plugins: "default" or "all" (stat, mvcc, addrfeeindex on).
+// NewRig starts a fresh node. plugins: "default" or "all" (stat and addrfeeindex on as well).
 func NewRig(para bool, plugins string) (*Rig, error) {
 	s := types.GetDefaultCfgstring()
 	if para {
@@ -88,10 +92,14 @@ func NewRig(para bool, plugins string) (*Rig, error) {
 	cfg := types.NewChain33Config(s)
 	m := cfg.GetModuleConfig()
 	m.Consensus.Minerstart = false
-	if plugins == "all" {
+	if plugins == "all" || plugins == "mvcc" {
 		m.Exec.EnableStat = true
-		m.Exec.EnableMVCC = true
 		m.Exec.EnableAddrFeeIndex = true
+	}
+	if plugins == "mvcc" {
+		// not used by the checks: with the executor's MVCC on, the version record of the genesis
+		// state is stored as an empty value (= deleted) and block 1 cannot be executed
+		m.Exec.EnableMVCC = true
 	}
 	registerApps(cfg)
 	silenceLogs()
@@ -147,8 +155,14 @@ func (r *Rig) newTx(sp *TxSpec, nonce int64) (*types.Transaction, error) {
 // Nonces depend only on (height, position, salt), signatures are deterministic, so the block is
 // byte-identical in every process that builds it on the same tip.
 func (r *Rig) BuildBlock(items [][]TxSpec, salt int64) (*types.Block, int64, error) {
+	b, fee, _, err := r.buildBlock(items, salt)
+	return b, fee, err
+}
+
+func (r *Rig) buildBlock(items [][]TxSpec, salt int64) (*types.Block, int64, [][]*types.Transaction, error) {
 	height := r.tip.Height + 1
 	var txs []*types.Transaction
+	var perItem [][]*types.Transaction
 	feeWant := int64(0)
 	pos := int64(0)
 	for _, it := range items {
@@ -157,7 +171,7 @@ func (r *Rig) BuildBlock(items [][]TxSpec, salt int64) (*types.Block, int64, err
 			pos++
 			tx, err := r.newTx(&it[i], height*100000+salt*1000+pos)
 			if err != nil {
-				return nil, 0, err
+				return nil, 0, nil, err
 			}
 			g = append(g, tx)
 		}
@@ -167,7 +181,7 @@ func (r *Rig) BuildBlock(items [][]TxSpec, salt int64) (*types.Block, int64, err
 		} else {
 			grp, err := types.CreateTxGroup(g, r.cfg.GetMinTxFeeRate())
 			if err != nil {
-				return nil, 0, err
+				return nil, 0, nil, err
 			}
 			for i := range grp.Txs {
 				grp.SignN(i, types.SECP256K1, r.priv)
@@ -176,10 +190,11 @@ func (r *Rig) BuildBlock(items [][]TxSpec, salt int64) (*types.Block, int64, err
 			feeWant += g[0].Fee
 		}
 		txs = append(txs, g...)
+		perItem = append(perItem, g)
 	}
 	b := &types.Block{Height: height, BlockTime: r.tip.BlockTime + 1, ParentHash: r.tip.Hash(r.cfg), Txs: txs}
 	b.TxHash = merkle.CalcMerkleRoot(r.cfg, b.Height, b.Txs)
-	return b, feeWant, nil
+	return b, feeWant, perItem, nil
 }
 
 func kvStrings(kvs []*types.KeyValue) [][]string {
@@ -387,7 +402,7 @@ func (r *Rig) Activity(kind string, items [][]TxSpec) error {
 		}
 		r.balance(r.tip.StateHash)
 	case "side", "checktx":
-		blk, fee, err := r.BuildBlock(items, 7)
+		blk, fee, per, err := r.buildBlock(items, 7)
 		if err != nil {
 			return err
 		}
@@ -395,7 +410,16 @@ func (r *Rig) Activity(kind string, items [][]TxSpec) error {
 			r.Exec(blk, fee)
 			return nil
 		}
-		list := &types.ExecTxList{StateHash: r.tip.StateHash, ParentHash: blk.ParentHash, Txs: blk.Txs,
+		// as the mempool does: a group travels as its first transaction carrying the encoded group
+		var txs []*types.Transaction
+		for _, g := range per {
+			if len(g) == 1 {
+				txs = append(txs, g[0])
+			} else {
+				txs = append(txs, (&types.Transactions{Txs: g}).Tx())
+			}
+		}
+		list := &types.ExecTxList{StateHash: r.tip.StateHash, ParentHash: blk.ParentHash, Txs: txs,
 			BlockTime: blk.BlockTime, Height: blk.Height, IsMempool: true}
 		msg := r.cli.NewMessage("execs", types.EventCheckTx, list)
 		if err := r.cli.Send(msg, true); err != nil {
